@@ -94,7 +94,7 @@ PatternField(pv, f) ==
    ELSE IF pv = "4" THEN Field("4", f) # <<>>
    ELSE Field("3", f) # <<>> \/ (pv = "3.0" /\ f \in {"PR:U","MPR:U"})
 RECURSIVE Increasing(_,_)
-Increasing(q, k) == k >= Len(q) \/ (q[k] < q[k+1] /\ Increasing(q, k+1))
+Increasing(q, k) == IF k >= Len(q) THEN TRUE ELSE (q[k] < q[k+1] /\ Increasing(q, k+1))
 OfficialPattern(pv, s) ==
    IF pv = "2" THEN LET fs == Split(s, "/") IN \A k \in 1..Len(fs) : PatternField("2", fs[k])
    ELSE IF pv \in {"3.0","3.1"} THEN
